@@ -1,6 +1,7 @@
 package main
 
 import (
+	"context"
 	"regexp"
 	"runtime"
 	"encoding/json"
@@ -411,12 +412,27 @@ const (
 	wallRetry    = 240 * time.Second
 	wallSecond   = 45 * time.Second // second opinions (z3 4.8.12, cvc5): helpful extras, limited by time
 	maxRetry     = 4
+	// Portfolio for what the first attempt leaves open: three more z3 runs that differ only in the random seed. Each is
+	// deterministic (rlimit); together they make the verdict far less sensitive to the one seed of the first attempt.
+	rlimitPortfolio = 60000000
+	wallPortfolio   = 120 * time.Second
 )
 
 func runSolverLimited(solver, file string, timeout time.Duration) solverResult {
-	solverSem <- struct{}{}
+	return runSolverLimitedCtx(context.Background(), solver, file, timeout)
+}
+
+func runSolverLimitedCtx(ctx context.Context, solver, file string, timeout time.Duration) solverResult {
+	select {
+	case solverSem <- struct{}{}:
+	case <-ctx.Done():
+		return solverResult{}
+	}
 	defer func() { <-solverSem }()
-	return runSolver(solver, file, timeout)
+	if ctx.Err() != nil {
+		return solverResult{}
+	}
+	return runSolverCtx(ctx, solver, file, timeout)
 }
 
 func (e *Engine) discharge(res *FuncResult, t *tr, body string, opt *Options) {
@@ -443,23 +459,29 @@ func (e *Engine) discharge(res *FuncResult, t *tr, body string, opt *Options) {
 		var sb strings.Builder
 		sb.WriteString(e.buildPrelude(solver, litText))
 		if solver != "cvc5" {
-			if solver == "z3-new" || solver == "z3-new-retry" {
+			seed := opt.Seed % 1000000
+			if strings.HasPrefix(solver, "z3-new") {
 				rl := rlimitFirst
 				if solver == "z3-new-retry" {
 					rl = rlimitRetry
+				}
+				if strings.HasPrefix(solver, "z3-new-p") {
+					// portfolio member: same script, another random seed (and so another instantiation order), larger budget
+					rl = rlimitPortfolio
+					seed = seed + 7919*int(solver[len(solver)-1]-'0')
 				}
 				fmt.Fprintf(&sb, "(set-option :rlimit %d)\n", rl)
 			} else {
 				fmt.Fprintf(&sb, "(set-option :timeout %d)\n", limit.Milliseconds())
 			}
-			if opt.Seed != 0 {
-				fmt.Fprintf(&sb, "(set-option :smt.random_seed %d)\n", opt.Seed%1000000)
+			if seed != 0 {
+				fmt.Fprintf(&sb, "(set-option :smt.random_seed %d)\n(set-option :sat.random_seed %d)\n", seed, seed)
 			}
 		}
 		return sb.String()
 	}
 	hdr := map[string]string{}
-	for _, s := range []string{"z3-new", "z3-new-retry", "z3", "cvc5"} {
+	for _, s := range []string{"z3-new", "z3-new-retry", "z3-new-p1", "z3-new-p2", "z3-new-p3", "z3", "cvc5"} {
 		hdr[s] = header(s, per)
 	}
 	base := sanitize(res.Key)
@@ -521,7 +543,11 @@ func (e *Engine) discharge(res *FuncResult, t *tr, body string, opt *Options) {
 	query := func(o *Obligation) string {
 		return fmt.Sprintf("(assert (and %s (not %s)))\n(check-sat)\n", o.Guard, o.Goal)
 	}
+	var runCtx func(ctx context.Context, k int, solver string, limit time.Duration) (string, int64, []string)
 	run := func(k int, solver string, limit time.Duration) (string, int64, []string) {
+		return runCtx(context.Background(), k, solver, limit)
+	}
+	runCtx = func(ctx context.Context, k int, solver string, limit time.Duration) (string, int64, []string) {
 		o := res.Obls[k]
 		scr := hdr[solver] + prefixes[k] + query(o)
 		f := writeScratch(fmt.Sprintf("%s_%d_%s.smt2", base, k, solver), scr)
@@ -531,7 +557,7 @@ func (e *Engine) discharge(res *FuncResult, t *tr, body string, opt *Options) {
 		if opt.KeepSMT != "" && solver == "z3-new-retry" {
 			os.WriteFile(filepath.Join(opt.KeepSMT, fmt.Sprintf("%s__%s.retry.smt2", base, sanitize(o.Name))), []byte(scr), 0644)
 		}
-		r := runSolverLimited(solver, f, limit)
+		r := runSolverLimitedCtx(ctx, solver, f, limit)
 		os.Remove(f)
 		st := "unknown"
 		if len(r.lines) > 0 {
@@ -611,24 +637,49 @@ func (e *Engine) discharge(res *FuncResult, t *tr, body string, opt *Options) {
 					return
 				}
 			}
-			// second opinion (always in thorough mode: cross-check)
-			for _, solver := range []string{"z3", "cvc5"} {
-				st2, ms2, _ := run(k, solver, wallSecond)
-				vmu.Lock()
-				res.SolverMs += ms2
-				if st2 == "unsat" && o.Status != "unsat" {
-					o.Status, o.Solver, o.Millis = "unsat", solver, ms2
-				} else if st2 == "sat" && o.Status == "unsat" && !strings.Contains(prefixes[k]+query(o), "forall") {
-					// quantifier-free disagreement is an engine error
-					res.Fatal = append(res.Fatal, fmt.Sprintf("solver disagreement on %s: %s says unsat, %s says sat", o.Name, o.Solver, solver))
-				} else if st2 == "sat" && o.Status != "unsat" {
-					o.Note = strings.TrimSpace(o.Note + " " + solver + ":sat")
+			// second opinions, all at once: the seed portfolio of z3-new, z3 4.8.12 and cvc5 (always in thorough mode: cross-check)
+			var swg sync.WaitGroup
+			pctx, pcancel := context.WithCancel(context.Background())
+			for _, solver := range []string{"z3-new-p1", "z3-new-p2", "z3-new-p3", "z3", "cvc5"} {
+				if strings.HasPrefix(solver, "z3-new-p") && st == "unsat" {
+					continue // thorough cross-check: other solvers only
 				}
-				vmu.Unlock()
-				if o.Status == "unsat" && !opt.Thorough {
-					break
-				}
+				swg.Add(1)
+				go func(solver string) {
+					defer swg.Done()
+					vmu.Lock()
+					done := o.Status == "unsat" && !opt.Thorough
+					vmu.Unlock()
+					if done {
+						return
+					}
+					lim := wallSecond
+					if strings.HasPrefix(solver, "z3-new-p") {
+						lim = wallPortfolio
+					}
+					st2, ms2, _ := runCtx(pctx, k, solver, lim)
+					vmu.Lock()
+					defer vmu.Unlock()
+					res.SolverMs += ms2
+					if st2 == "unsat" && !opt.Thorough {
+						pcancel() // the others are no longer needed
+					}
+					label := solver
+					if strings.HasPrefix(solver, "z3-new-p") {
+						label = "z3-new(portfolio)"
+					}
+					if st2 == "unsat" && o.Status != "unsat" {
+						o.Status, o.Solver, o.Millis = "unsat", label, ms2
+					} else if st2 == "sat" && o.Status == "unsat" && !strings.Contains(prefixes[k]+query(o), "forall") {
+						// quantifier-free disagreement is an engine error
+						res.Fatal = append(res.Fatal, fmt.Sprintf("solver disagreement on %s: %s says unsat, %s says sat", o.Name, o.Solver, solver))
+					} else if st2 == "sat" && o.Status != "unsat" {
+						o.Note = strings.TrimSpace(o.Note + " " + solver + ":sat")
+					}
+				}(solver)
 			}
+			swg.Wait()
+			pcancel()
 			if o.Status != "unsat" && o.Status != "error" && !opt.ExpectFail[res.Key+"#"+o.Name] {
 				// last attempt with an eight times larger budget (a few obligations per function only)
 				vmu.Lock()
